@@ -87,7 +87,7 @@ def Sim (τ : List Addr) (exitCode : Nat) (orig : Code) (entry : Addr) (s : St) 
   | .inProgress => Live orig entry sp.B s ∧ s.idx = sp.idx ∧ s.idx < τ.length ∧ sp.late = []
   | .exited => Gone sp.late s
 
-private theorem Sim.status {τ x orig entry s sp} (h : Sim τ x orig entry s sp) : s.status = sp.status := by
+theorem Sim_status {τ x orig entry s sp} (h : Sim τ x orig entry s sp) : s.status = sp.status := by
   obtain ⟨_, _, hm⟩ := h
   cases hs : sp.status <;> rw [hs] at hm
   · exact hm.1.st
@@ -203,9 +203,6 @@ theorem C01_simulation_step (τ : List Addr) (x : Nat) (orig : Code) (entry : Ad
 
 /-! ## Whole histories -/
 
-private theorem execAll_cons (s : St) (op : Op) (ops : List Op) :
-    execAll s (op :: ops) = ((execAll (exec s op).1 ops).1, (exec s op).2 :: (execAll (exec s op).1 ops).2) := rfl
-
 private theorem run_cons (τ x) (sp : Spec) (op : Op) (ops : List Op) :
     Spec.run τ x sp (op :: ops) = ((Spec.run τ x (sp.step τ x op).1 ops).1,
       (sp.step τ x op).2 :: (Spec.run τ x (sp.step τ x op).1 ops).2) := rfl
@@ -229,7 +226,7 @@ theorem C01_simulation (τ : List Addr) (x : Nat) (orig : Code) (entry : Addr)
     rw [execAll_cons, run_cons]
     exact ⟨by show _ :: _ = _ :: _; rw [h1, i1], i2⟩
 
-private theorem sim_init (τ : List Addr) (x : Nat) (orig : Code) (entry : Addr) :
+theorem Sim_init (τ : List Addr) (x : Nat) (orig : Code) (entry : Addr) :
     Sim τ x orig entry (init τ entry orig x) {} :=
   Sim.unload rfl rfl rfl (init_fresh τ entry orig x) rfl
 
@@ -242,7 +239,7 @@ theorem C01_continue_projection (τ : List Addr) (entry : Addr) (orig : Code) (e
     (ho : Bytes orig) (hcc : ∀ a ∈ τ, orig a ≠ 0xCC) (hhead : τ.head? = some entry)
     (hb : NoBreakAtEntry entry ops) (hr : NoRemoveAtEntry entry ops) :
     (execAll (init τ entry orig exitCode) ops).2 = (Spec.run τ exitCode {} ops).2 :=
-  (C01_simulation τ exitCode orig entry ho hcc hhead ops _ _ (sim_init τ exitCode orig entry) hb hr).1
+  (C01_simulation τ exitCode orig entry ho hcc hhead ops _ _ (Sim_init τ exitCode orig entry) hb hr).1
 
 private theorem spec_step_out (τ x) (sp : Spec) (op : Op) :
     (sp.step τ x op).2 ≠ .corrupt ∧ (sp.step τ x op).2 ≠ .outOfFuel := by
@@ -291,18 +288,6 @@ private theorem patchInv_of_ginv {orig s} (h : GInv orig s) : PatchInv orig s :=
     · intro b hb; cases hb
   · have hi := h.live hs
     exact ⟨fun _ => hi.text, hi.saved, hi.nodup, hi.allEn⟩
-
-private theorem execAll_ginv {orig} (ho : Bytes orig) : ∀ (ops : List Op) (s : St), GInv orig s →
-    GInv orig (execAll s ops).1 ∧ (execAll s ops).1.τ = s.τ ∧ s.idx ≤ (execAll s ops).1.idx := by
-  intro ops
-  induction ops with
-  | nil => intro s h; exact ⟨h, rfl, Nat.le_refl _⟩
-  | cons op ops ih =>
-    intro s h
-    obtain ⟨e1, e2, _, e4⟩ := exec_ginv ho h op
-    obtain ⟨i1, i2, i3⟩ := ih _ e1
-    rw [execAll_cons]
-    exact ⟨i1, i2.trans e2, Nat.le_trans e4 i3⟩
 
 /-- **C01_patch_inv.**  After every command history whatsoever (any trace, any entry address, double adds at one
 address, removals of anything, ...) the patch invariant holds.  No hypothesis except that `orig` is made of bytes. -/
@@ -402,7 +387,7 @@ theorem C01_removed_never_stops (τ : List Addr) (entry : Addr) (orig : Code) (e
   have hr2 : NoRemoveAtEntry entry post :=
     fun o h => hr o (List.mem_append_right _ (List.mem_cons_of_mem _ h))
   have hra : Op.remove a ≠ .remove entry := hr _ (List.mem_append_right _ List.mem_cons_self)
-  obtain ⟨_, s1⟩ := C01_simulation τ exitCode orig entry ho hcc hhead pre _ _ (sim_init τ exitCode orig entry) hb1 hr1
+  obtain ⟨_, s1⟩ := C01_simulation τ exitCode orig entry ho hcc hhead pre _ _ (Sim_init τ exitCode orig entry) hb1 hr1
   obtain ⟨_, s2⟩ := C01_simulation_step τ exitCode orig entry ho hcc hhead _ _ s1 (.remove a) (by simp) hra
   obtain ⟨s3, _⟩ := C01_simulation τ exitCode orig entry ho hcc hhead post _ _ s2 hb2 hr2
   rw [s3]
@@ -457,8 +442,8 @@ theorem C01_rearm_every_arrival (τ : List Addr) (entry : Addr) (orig : Code) (e
           (fun a => decide (a ∈ (Spec.run τ exitCode {} pre).1.B))).length + 1) .cont)).2
       = ((τ.drop ((execAll (init τ entry orig exitCode) pre).1.idx + 1)).filter
           (fun a => decide (a ∈ (Spec.run τ exitCode {} pre).1.B))).map .stop ++ [.exit exitCode] := by
-  obtain ⟨_, s1⟩ := C01_simulation τ exitCode orig entry ho hcc hhead pre _ _ (sim_init τ exitCode orig entry) hb hr
-  have hsp : (Spec.run τ exitCode {} pre).1.status = .inProgress := by rw [← s1.status]; exact hst
+  obtain ⟨_, s1⟩ := C01_simulation τ exitCode orig entry ho hcc hhead pre _ _ (Sim_init τ exitCode orig entry) hb hr
+  have hsp : (Spec.run τ exitCode {} pre).1.status = .inProgress := by rw [← Sim_status s1]; exact hst
   have hidx : (execAll (init τ entry orig exitCode) pre).1.idx = (Spec.run τ exitCode {} pre).1.idx := by
     obtain ⟨_, _, hm⟩ := s1
     rw [hsp] at hm; exact hm.2.1
